@@ -1307,6 +1307,48 @@ def rule_py_ctor_agree(ctx, ts):
     ctx.floor(R + ":py-ctor", n, 1)
 
 
+def rule_variant_by_index(ctx, ts):
+    """DSDL unions may list the same type for several options (`uint8 a` / `uint8 b`).  std::variant's type-indexed interface
+    (holds_alternative<T>, get<T>, get_if<T>, emplace<T>) is ill-formed when T occurs more than once, so the generated accessors must
+    select alternatives by index - VariantType::IndexOf::<field> / a size_t template parameter - everywhere."""
+    R = "R-C06-VARIANT-INDEX"
+    ctx.rule(
+        R,
+        "C++ union templates select alternatives of VariantType by index only: no std::holds_alternative, and the first template "
+        "argument of get / get_if / emplace / in_place_index / alternative is an IndexOf:: constant, a literal or a size_t parameter",
+    )
+    N = ts.nodes
+    n = 0
+    for t in ts.of_lang("cpp", "templates"):
+        if t.name not in ("_composite_type.j2", "_fields_as_variant.j2", "_fields_as_union.j2", "serialization.j2", "deserialization.j2"):
+            continue
+        # printed expressions are spelled out (a hoisted `{% set index = 'VariantType::IndexOf::' ~ name %}` printed as the argument reads as that)
+        binds = {}
+        for a_ in t.ast.find_all(N.Assign):
+            if isinstance(a_.target, N.Name):
+                binds.setdefault(a_.target.name, []).append(a_.node)
+
+        def spell(d):
+            if isinstance(d, N.Name) and len(binds.get(d.name, [])) == 1:
+                return xs(binds[d.name][0])
+            return xs(d)
+        text = "".join(d.data if isinstance(d, N.TemplateData) else "{" + spell(d).replace("<", "(").replace(">", ")") + "}" for o in t.ast.find_all(N.Output) for d in o.nodes)
+        for m in re.finditer(r"\bholds_alternative\s*<", text):
+            n += 1
+            ctx.ob(R, t.rel, f"cpp: {t.name}: no type-indexed std::holds_alternative<T>", False,
+                   "std::holds_alternative<T> does not compile for a union with two options of the same type (T must occur exactly once); compare index() with IndexOf",
+                   None)
+        for m in re.finditer(r"\b(?:std::|VariantType::)?(get_if|get|emplace|in_place_index_t|in_place_index)\s*<\s*([^>,]*)", text):
+            arg = m.group(2).strip()
+            if m.group(1) == "get" and not re.search(r"(std::|VariantType::)get\s*<", m.group(0)):
+                continue
+            n += 1
+            ok = "IndexOf::" in arg or re.fullmatch(r"[A-Z]|\d+U?|Is?|Index|Idx", arg) is not None
+            ctx.ob(R, t.rel, f"cpp: {t.name}: {m.group(1)}<{arg[:40]}> selects the alternative by index", ok,
+                   "" if ok else "selected by type: ill-formed for a union with two options of the same type", None)
+    ctx.floor(R, n, 4)
+
+
 def run(ctx):
     ctx.explanation = (
         "C06 is decided as exhaustiveness over template paths: every name a built-in template can reference on any "
@@ -1327,6 +1369,7 @@ def run(ctx):
     rule_resolve(ctx, ts, reg)
     rule_options(ctx, ts, reg)
     rule_omit_scope(ctx, ts, px)
+    rule_variant_by_index(ctx, ts)
     from checks import _lines
     _lines.rule_comment_eol(ctx, ts, "R-C06-COMMENT-EOL", floor=10)
     rule_std_includes(ctx, px)
